@@ -233,6 +233,15 @@ func isNilRef(x value) bool {
 }
 
 func (ex *Exec) eqv(t types.Type, x, y value) value {
+	switch x.(type) {
+	case []value, *omap, *ssa.Function, *closure, boundMethod:
+		// reachable only through interface values: a run-time panic in Go
+		where := ""
+		if ex.curFrame != nil {
+			where = ex.curFrame.siteKey() + " [" + ex.curFrame.where() + "]"
+		}
+		panic(runtimePanic{kind: "uncomparable", msg: "comparing uncomparable type " + t.String(), where: where})
+	}
 	if !hasSym(x) && !hasSym(y) {
 		switch x.(type) {
 		case chanValue:
@@ -242,7 +251,7 @@ func (ex *Exec) eqv(t types.Type, x, y value) value {
 		case *ssa.Function, *closure, []value, *omap:
 			panic(runtimePanic{kind: "uncomparable", msg: "comparing uncomparable type " + t.String()})
 		}
-		return equalsConcrete(t, x, y)
+		return ex.equalsConcreteRT(t, x, y)
 	}
 	switch x := x.(type) {
 	case iface:
@@ -421,6 +430,9 @@ func (ex *Exec) unop(fr *frame, instr *ssa.UnOp, x value) value {
 		p := x.(*value)
 		if p == nil {
 			fr.rtPanic("nil", "nil pointer dereference (load of %s)", instr.X.Type())
+		}
+		if ex.hooks != nil {
+			ex.hooks.noteRead(fr, p)
 		}
 		return load(mustDeref(instr.X.Type()), p)
 	case token.ARROW:
@@ -796,4 +808,22 @@ func (ex *Exec) callBuiltin(caller *frame, callpos token.Pos, fn *ssa.Builtin, a
 		return &caller.defers
 	}
 	panic(engineError{"unknown built-in: " + fn.Name()})
+}
+
+// equalsConcreteRT is equalsConcrete with Go's run-time panic for
+// uncomparable dynamic types.
+func (ex *Exec) equalsConcreteRT(t types.Type, x, y value) (res bool) {
+	defer func() {
+		if r := recover(); r != nil {
+			if u, ok := r.(uncomparable); ok {
+				where := ""
+				if ex.curFrame != nil {
+					where = ex.curFrame.siteKey() + " [" + ex.curFrame.where() + "]"
+				}
+				panic(runtimePanic{kind: "uncomparable", msg: "comparing uncomparable type " + u.t.String(), where: where})
+			}
+			panic(r)
+		}
+	}()
+	return equalsConcrete(t, x, y)
 }
